@@ -6,7 +6,7 @@ Engine E1 on the three documented extension points:
 from collections import Counter
 from itertools import product, permutations, combinations
 import numpy as np
-from .. import repo, spaces
+from .. import repo, spaces, oracles as O
 from ..runner import Acc
 
 ID = "C13"
@@ -23,26 +23,38 @@ RULE = ("(a) every sum vector with k entries from 0..S (all orders) x remaining 
         "non-trivial = (a) remaining total > 0 and k >= 2, (b) window neither empty nor everything, (c) at least two distinct pairings.")
 ASSUMPTIONS = ["integer sums and totals", "bounds as listed in evidence.coverage.bounds"]
 
-OBJS = ("MaximizeSmallestSum", "MinimizeLargestSum", "MinimizeDifference")
+OBJS = ("MaximizeSmallestSum", "MinimizeLargestSum", "MinimizeDifference",
+        "MaximizeKSmallestSums(2)", "MinimizeKLargestSums(2)")      # the last two inherit the base-class bound
 
 
 def bounds(tier):
     q = tier == "quick"
-    return {"lower_bound": f"k<={4 if q else 5}, sums 0..5, remaining total 0..{8 if q else 10}, three containers, flag on/off, all permutations for k<=3",
-            "generate_tree": f"values 0..3, 1..{5 if q else 6} items, all half-integer windows from -0.5 to total+0.5",
-            "all_combinations": f"k<=3 with bin contents in {{(),(1),(2),(1,1)}}, k=4 with {{(),(1),(2)}}" + ("" if q else ", k=5 with {(),(1)}") + "; both managers"}
+    return {"lower_bound": (f"k<=4, sums 0..5, remaining total 0..8" if q else "k<=4: sums 0..7, remaining 0..14; k=5: sums 0..7, remaining 0..10; k=6: sums 0..4, remaining 0..10")
+                           + "; plus vectors near 2**32 (k=2..3" + ("" if q else "..4") + "); three containers, flag on/off, all permutations for k<=3; five objectives",
+            "generate_tree": f"values 0..3, 1..{5 if q else 7} items" + ("" if q else "; values {0,1,2,5,9}, 1..6 items") + ", all half-integer windows from -0.5 to total+0.5",
+            "all_combinations": f"k<=3 with bin contents in {{(),(1),(2),(1,1)}}, k=4 with {{(),(1),(2)}}" + ("" if q else ", k=5 with {(),(1),(2)}, k=6 with {(),(1)}") + "; both managers"}
 
 
 def tasks(tier):
     q = tier == "quick"
     ts = []
-    for k in range(1, (4 if q else 5) + 1):
-        vecs = list(spaces.multisets(range(0, 6), k, k))
+    for k in range(1, (4 if q else 6) + 1):
+        vecs = list(spaces.multisets(range(0, 6 if q else (8 if k <= 5 else 5)), k, k))
         for ch in spaces.chunked(vecs, 20):
-            ts.append(("lower_bound", k, ch, 8 if q else 10))
-    for ch in spaces.chunked(spaces.multisets(range(0, 4), 1, 5 if q else 6), 6):
+            ts.append(("lower_bound", k, ch, 8 if q else (14 if k <= 4 else 10)))
+    # sum vectors of large magnitude with small gaps (remaining totals that just reach / just miss levelling them)
+    for k in (2, 3) if q else (2, 3, 4):
+        base = 2 ** 32
+        vecs = [tuple(base + v for v in ms) for ms in spaces.multisets(range(0, 4), k, k)] + \
+               [tuple((base if i else 0) + v for i, v in enumerate(sorted(ms))) for ms in spaces.multisets(range(0, 3), k, k)]
+        for ch in spaces.chunked(vecs, 10):
+            ts.append(("lower_bound", k, ch, 6))
+    for ch in spaces.chunked(spaces.multisets(range(0, 4), 1, 5 if q else 7), 6):
         ts.append(("generate_tree", None, ch, None))
-    combos = [(1, 4), (2, 4), (3, 4), (4, 3)] + ([] if q else [(5, 2)])
+    if not q:
+        for ch in spaces.chunked(spaces.multisets((0, 1, 2, 5, 9), 1, 6), 6):
+            ts.append(("generate_tree", None, ch, None))
+    combos = [(1, 4), (2, 4), (3, 4), (4, 3)] + ([] if q else [(5, 3), (6, 2)])
     for k, nopt in combos:
         firsts = list(product(range(nopt), repeat=k))
         for ch in spaces.chunked(firsts, 4 if k >= 4 else 16):
@@ -57,7 +69,7 @@ def _true_min(spec, vec, rem):
     k = len(vec)
     for comp in spaces.compositions(rem, k):
         s = [a + b for a, b in zip(vec, comp)]
-        v = {"MaximizeSmallestSum": -min(s), "MinimizeLargestSum": max(s), "MinimizeDifference": max(s) - min(s)}[spec]
+        v = O.objective_value(spec, s)
         if best is None or v < best: best = v
     return best
 
